@@ -20,7 +20,10 @@ RULE = ("context id strings (empty, blank, ASCII, case / whitespace variants of 
         "(`vharn life`, one OS process per lifetime, 2..8 shards): families of context ids around one base id - "
         "White_Space of ten kinds at either edge and inside, case variants, NFD/NFKC look-alikes, zero-width / soft-hyphen / "
         "bidi characters, ids of several thousand characters, empty-looking ids - stored through STORE ... FOR \"<id>\", "
-        "then QUERY t, QUERY t FOR, REPLAY FOR and REPLAY t FOR for every id in memory, after FLUSH and after a restart. "
+        "then QUERY t, QUERY t FOR, REPLAY FOR and REPLAY t FOR for every id in memory, after FLUSH and after a restart; "
+        "back-pressure histories (2..4 shards): the home shard of one context parked inside a STORE, more concurrent STOREs "
+        "for it than its mailbox holds (8096) plus STOREs for other shards, release, drain - answers, per-shard WAL "
+        "directories, shard tags, scoped and unscoped reads. "
         "Non-trivial = the implementation produced a shard index / observations; distinct by (probe kind, context, "
         "shard count(s)) or the history")
 ASSUMPTIONS = [
@@ -171,7 +174,150 @@ def cases(rng, tier):
     # scoped reads against the unscoped read on the real engine (real process lifetimes)
     for _ in range(10 if tier == "quick" else 300):
         out.append(gen_read_history(rng))
+    # back-pressure: the home shard of one context is stuck inside a STORE while more STOREs for that context
+    # arrive than its mailbox holds; placement must not depend on the momentary load
+    for _ in range(1 if tier == "quick" else 4):
+        out.append(gen_backpressure(rng))
     return out
+
+
+# ------------------------------------------------------------------ back-pressure on the home shard
+MAILBOX = 8096      # src/engine/shard/types.rs: channel(8096)
+
+
+def gen_backpressure(rng):
+    n = rng.choice([2, 3, 4])
+    hot = rng.choice(WORDS) + "-hot-" + str(rng.below(10000))
+    home = ref_hash(hot.encode("utf-8")) % n
+    others = []
+    k = 0
+    while len(others) < 3 and k < 500:       # contexts homed on other shards (at least one per other shard if quick to find)
+        c = f"calm-{k}"; k += 1
+        h = ref_hash(c.encode("utf-8")) % n
+        if h != home and (len([o for o in others if o[1] == h]) == 0 or len(others) >= n - 1):
+            others.append((c, h))
+    blast = MAILBOX + rng.range(100, 400)
+    return {"kind": "backpressure", "line": f"route_many {hx(hot)} {n}", "n": n, "hot": hot, "home": home, "ctx": hot, "ns": [n],
+            "others": [list(o) for o in others], "blast": blast, "sleep": rng.range(100, 600),
+            "cfg": dict(fill_factor=25, event_per_zone=1000, shards=n),
+            "show": f"{n} shards: home shard {home} of {hot!r} parked inside a STORE, {blast} concurrent STOREs for it (mailbox {MAILBOX}), "
+                    f"a few for {[o[0] for o in others]}, release, drain; placement and reads"}
+
+
+def run_backpressure(case):
+    """-> {"ack": {...}, "placement": {ctx: {shard dir: count}}, "tags": {ctx: [tags]}, "unscoped": {ctx: [x]}, "scoped": [x], ...}"""
+    import engine, os
+    e = engine.Engine(**case["cfg"])
+    res = {"err": None}
+    hot, n = case["hot"], case["n"]
+    try:
+        e.start()
+        r = e.rows('DEFINE t FIELDS { "x": "int" }')
+        if r["status"] != 200:
+            raise RuntimeError(f"DEFINE answered {r['status']}")
+        e.cmd("!park st_wal_sent")
+        e.cmd(f'!bg STORE t FOR "{hot}" PAYLOAD {{ "x": 0 }}')
+        w = e.cmd("!wait_parked st_wal_sent 5000")
+        if not w.get("parked"):
+            raise RuntimeError("the shard worker did not reach the step point st_wal_sent")
+        b = e.cmd(f'!blast {case["blast"]} 1 STORE t FOR "{hot}" PAYLOAD {{ "x": {{i}} }}')
+        ob = {}
+        base = 1_000_000
+        for c, _h in case["others"]:
+            ob[c] = e.cmd(f'!blast 3 {base} STORE t FOR "{c}" PAYLOAD {{ "x": {{i}} }}')
+            base += 1000
+        e.cmd(f"!sleep {case['sleep']}")
+        e.cmd("!release st_wal_sent")
+        j = e.cmd("!join")
+        e.cmd("!flushwait"); e.cmd("!wal_drained 8000"); e.cmd("!sleep 300"); e.cmd("!wal_drained 8000")
+        first_ok = '"status":200' in (j.get("out") or "")
+        res["ack"] = {"first": first_ok, "ok": b.get("ok", []), "busy": b.get("busy", []), "other": b.get("other", []),
+                      "calm": {c: v for c, v in ob.items()}}
+        q = e.rows("QUERY t")
+        rows = q["rows"]
+        res["status"] = q["status"]
+        uns, tags = {}, {}
+        for row in rows:
+            c = row.get("context_id")
+            uns.setdefault(c, []).append(row.get("x"))
+            eid = row.get("event_id")
+            if isinstance(eid, int):
+                tags.setdefault(c, set()).add((eid >> 12) & 1023)
+        res["unscoped"] = {c: sorted(v) for c, v in uns.items()}
+        res["tags"] = {c: sorted(v) for c, v in tags.items()}
+        qs = e.rows(f'QUERY t FOR "{hot}"')
+        res["scoped"] = sorted(r_.get("x") for r_ in qs["rows"])
+        res["scoped_status"] = qs["status"]
+        # placement: the per-shard WAL directories (no flush happens: the memtable holds 25000 events)
+        place = {}
+        for sid in range(n):
+            d = os.path.join(e.root, "wal", f"shard-{sid}")
+            for fn in sorted(os.listdir(d)) if os.path.isdir(d) else []:
+                if fn.endswith(".log"):
+                    for ln in open(os.path.join(d, fn), encoding="utf-8"):
+                        try:
+                            v = json.loads(ln)
+                        except Exception:
+                            continue
+                        pc = place.setdefault(v.get("context_id"), {})
+                        pc.setdefault(sid, []).append(v.get("payload", {}).get("x"))
+        res["placement"] = place
+    except Exception as ex:
+        res["err"] = f"{type(ex).__name__}: {ex}"
+    finally:
+        e.destroy()
+    return res
+
+
+def oracle_backpressure(c, res):
+    if res.get("err"):
+        return f"the back-pressure history could not be run: {res['err']}"
+    hot, home, n = c["hot"], c["home"], c["n"]
+    ack = res["ack"]
+    if ack["other"]:
+        return f"{len(ack['other'])} STOREs under back-pressure were answered neither 200 nor 503 (e.g. x={ack['other'][:3]})"
+    if not ack["first"]:
+        return "the STORE the shard worker was parked in was not answered 200 after the release"
+    acked = set([0] + ack["ok"])
+    maybe = set(ack["busy"])
+    if len(ack["ok"]) > MAILBOX:
+        # more 200s than the home mailbox has slots while its worker stood still: they went somewhere else
+        pass
+    place = res["placement"].get(hot, {})
+    norm = lambda v: v.get("Int64", v.get("Int", v)) if isinstance(v, dict) else v
+    place = {sid: [norm(x) for x in xs] for sid, xs in place.items()}
+    wrong = {sid: xs for sid, xs in place.items() if sid != home and xs}
+    if wrong:
+        sid, xs = sorted(wrong.items())[0]
+        return (f"{len(xs)} events of context {hot!r} (x={sorted(xs)[:4]}...) were applied by shard {sid}; the context's shard is {home} "
+                f"(hash mod {n}); {len(ack['ok'])} of {c['blast']} concurrent STOREs were answered 200, {len(ack['busy'])} 503, "
+                f"the home mailbox holds {MAILBOX}: one context on two shards")
+    at_home = place.get(home, [])
+    if set(at_home) - acked - maybe or len(at_home) != len(set(at_home)):
+        return f"the home shard's WAL holds events of {hot!r} that were never sent or holds one twice: {sorted(set(at_home) - acked - maybe)[:5]}"
+    miss = acked - set(at_home)
+    if miss:
+        return f"{len(miss)} STOREs of {hot!r} answered 200 are not in the home shard's WAL (x={sorted(miss)[:5]})"
+    tags = res["tags"].get(hot, [])
+    if tags != [home % 1024]:
+        return f"the ids of {hot!r} carry the shard tags {tags}; its shard is {home}"
+    uns = res["unscoped"].get(hot, [])
+    if res["status"] != 200 or res["scoped_status"] != 200:
+        return f"QUERY answered {res['status']} / scoped {res['scoped_status']}"
+    if uns != res["scoped"]:
+        return f"QUERY t FOR {hot!r} returned {len(res['scoped'])} rows, the unscoped QUERY shows {len(uns)} for it"
+    if set(uns) != set(at_home) or len(uns) != len(at_home):
+        return f"the reads show {len(uns)} events of {hot!r}, the home shard's WAL holds {len(at_home)}"
+    for cx, h in c["others"]:
+        a = ack["calm"].get(cx, {})
+        if a.get("busy") or a.get("other") or len(a.get("ok", [])) != 3:
+            return f"STOREs for {cx!r} (shard {h}, not under pressure) were not all answered 200: {a}"
+        pl = {sid: [norm(x) for x in xs] for sid, xs in res["placement"].get(cx, {}).items()}
+        if sorted(pl) != [h] or sorted(pl[h]) != sorted(a["ok"]):
+            return f"context {cx!r} (shard {h}) is placed {({k: len(v) for k, v in pl.items()})}"
+        if res["tags"].get(cx) != [h % 1024] or res["unscoped"].get(cx) != sorted(a["ok"]):
+            return f"context {cx!r}: tags {res['tags'].get(cx)}, rows {res['unscoped'].get(cx)}"
+    return None
 
 
 # ------------------------------------------------------------------ engine read histories
@@ -325,12 +471,14 @@ def run_sides(cases_, model_ok):
     """Implementation side twice, in two different sets of fresh processes (the second run sees the
     cases in reverse order, so each case lands in another process and position); the second answer
     is kept on the case for the oracle."""
-    fn_idx = [i for i, c in enumerate(cases_) if c.get("kind") != "reads"]
+    fn_idx = [i for i, c in enumerate(cases_) if c.get("kind") not in ("reads", "backpressure")]
     rd_idx = [i for i, c in enumerate(cases_) if c.get("kind") == "reads"]
+    bp_idx = [i for i, c in enumerate(cases_) if c.get("kind") == "backpressure"]
     lines = [cases_[i]["line"] for i in fn_idx]
     impl = [None] * len(cases_)
-    # real-engine read histories run concurrently with the function-level probes
+    # real-engine histories run concurrently with the function-level probes
     with concurrent.futures.ThreadPoolExecutor(max_workers=10) as ex:
+        bfut = [ex.submit(run_backpressure, cases_[i]) for i in bp_idx]
         fut = [ex.submit(run_read_history, cases_[i]) for i in rd_idx]
         fn_impl = vlib.run_lines(vlib.VHARN, ["fn"], lines, timeout=900)
         # second evaluation, separate processes: function-level cases only (engine cases are whole lifetimes already)
@@ -340,6 +488,9 @@ def run_sides(cases_, model_ok):
         for k, a in zip(rev, again):
             cases_[fn_idx[k]]["_impl2"] = a
         rd_res = [f.result() for f in fut]
+        bp_res = [f.result() for f in bfut]
+    for i, r in zip(bp_idx, bp_res):
+        impl[i] = r
     for k, i in enumerate(fn_idx):
         impl[i] = fn_impl[k]
     for i, r in zip(rd_idx, rd_res):
@@ -350,12 +501,23 @@ def run_sides(cases_, model_ok):
 
 
 def same(c, impl, model):
+    if c.get("kind") == "backpressure":
+        # the model's answer for the case line (route_many <hot> <n>) is the shard every event of the context is on
+        if impl.get("err"):
+            return False
+        dirs = sorted(sid for sid, xs in impl["placement"].get(c["hot"], {}).items() if xs)
+        return model == "R " + " ".join(map(str, dirs))
     if c.get("kind") == "reads":
         return impl.get("err") is None and read_history_canon(c, impl) == model
     return impl == model
 
 
 def diffs(c, impl, model):
+    if c.get("kind") == "backpressure":
+        if impl.get("err"):
+            return ["harness: " + impl["err"]]
+        dirs = {sid: len(xs) for sid, xs in impl["placement"].get(c["hot"], {}).items() if xs}
+        return [] if same(c, impl, model) else [f"events of {c['hot']!r} per shard directory {dirs} / model {model}"]
     if c.get("kind") == "reads":
         if impl.get("err"):
             return ["harness: " + impl["err"]]
@@ -410,6 +572,8 @@ def oracle_reads(c, res):
 
 
 def oracle(c, impl):
+    if c.get("kind") == "backpressure":
+        return oracle_backpressure(c, impl)
     if c.get("kind") == "reads":
         return oracle_reads(c, impl)
     line = c["line"]
@@ -505,6 +669,8 @@ def classify(c, impl):
 
 
 def nontrivial_key(c, impl):
+    if c.get("kind") == "backpressure":
+        return ("backpressure", c["show"]) if isinstance(impl, dict) and impl.get("ack", {}).get("busy") else None
     if c.get("kind") == "reads":
         return ("reads", c["show"]) if isinstance(impl, dict) and impl.get("obs") and impl.get("acked") else None
     if impl and impl[:2] in ("R ", "H ", "E ", "B "):
